@@ -119,7 +119,7 @@ def run(ctx):
         ctx, MODULE, gen_imm.build_imm, CATS, cfg,
         modes_quick=[("single", 6000), ("seq2", 6000), ("spell", 2000)],
         modes_thorough=[("single", None), ("seq2", None), ("seq3", None), ("spell", None)],
-        devs=[("LeakWalkState", "seq2", ("Exact", "NoCrash")), ("CtorAnyPkg", "single0", ("Exact",)), ("CtorByBareName", "single0", ("Exact",)), ("NoUnalias", "spell", ("Exact",)), ("CtorAnyType", "single0", ("Exact",)), ("GroupDocLeaks", "single0", ("Exact",)), ("RecvBySyntax", "spell", ("Exact",)), ("RecvNameMemo", "seq2", ("Exact",)), ("MutableByFieldName", "single0", ("Exact",))],
+        devs=[("LeakWalkState", "seq2", ("Exact", "NoCrash")), ("CtorAnyPkg", "single0", ("Exact",)), ("CtorByBareName", "single0", ("Exact",)), ("NoUnalias", "spell", ("Exact",)), ("CtorAnyType", "single0", ("Exact",)), ("GroupDocLeaks", "single0", ("Exact",)), ("RecvBySyntax", "spell", ("Exact",)), ("RecvNameMemo", "seq2", ("Exact",)), ("MutableByFieldName", "single0", ("Exact",)), ("OneTypePerCtor", "single0", ("Exact",))],
         assumptions=["fragment: non-generic defined types, direct imports, one candidate statement per declaration",
                      "methods named like a constructor are not generated (unspecified)",
                      "diagnostics are compared as (file, line, code) sets of the IMM category"],
